@@ -42,7 +42,7 @@ Proof. exact pending_exec_action. Qed.
 Example C09_nonvacuous :
   quiet init /\
   let scr := fun h => if h =? 1 then [mkScript [ADisable 1] 4 0%Z] else [] in
-  let cmds := [CAct (AInsert 1 (SComp false None [mkGen 10 (mkInt true false) Level None false]));
+  let cmds := [CAct (AInsert 1 (SComp false None [mkGen 10 (mkInt true false) Level None false] None));
                CAct (AFdWrite 10 1); CDispatch 0%Z []] in
   halted (run scr (fun _ => []) cmds) = false /\ pending (run scr (fun _ => []) cmds) = Continue.
 Proof. split; [split; reflexivity|]. vm_compute. split; reflexivity. Qed.
